@@ -4,7 +4,7 @@
 import Mcp.Model.Rpc
 import Mcp.Model.RpcSpec
 namespace Mcp.Rpc
-open Mcp.Str Mcp.Json Mcp.Content Mcp.RpcSpec
+open Mcp.Str Mcp.Json Mcp.Content Mcp.RpcSpec Mcp.Session
 
 theorem f64Overflow_eq : f64Overflow = 2 ^ 1024 - 2 ^ 970 := by decide +kernel
 
@@ -502,6 +502,505 @@ theorem wfMsg_errMsg (req : Option Json) (id : Json) (code : Int) (msg : Text) :
 
 theorem wfMsg_errMsg_none (req : Option Json) (code : Int) (msg : Text) : wfMsg req (errMsg none code msg) = false := by
   simp [wfMsg, errMsg, jsonrpcField, version20, keysNodup, hasKey, lookup, reqIs, isStrEq, onlyKeys]
+theorem handleInitialize_result (reg : Registry) (req : Req) (r : Json) (h : handleInitialize reg req = .ok (.result r)) :
+    ∃ v, r = initResult reg v := by
+  unfold handleInitialize at h
+  split at h
+  · rename_i e he
+    unfold checkInitializeParams at he
+    repeat' split at he
+    all_goals simp at he
+    all_goals (subst he; simp at h)
+  · split at h
+    · simp at h
+    · split at h
+      · simp at h
+      · rename_i v _
+        simp at h
+        exact ⟨v, h.symm⟩
+
+theorem dispatch_result_wf (reg : Registry) (hc : reg.Conforming) (req : Req) (r : Json)
+    (hd : dispatch reg req = .ok (.result r)) : wfResult req.method r = true := by
+  unfold dispatch at hd
+  by_cases h0 : req.method = t!"initialize"
+  · rw [if_pos h0] at hd; rw [h0]
+    obtain ⟨v, rfl⟩ := handleInitialize_result reg req r hd
+    exact wf_initResult reg v
+  rw [if_neg h0] at hd
+  by_cases h1 : req.method = t!"ping"
+  · rw [if_pos h1] at hd; rw [h1]
+    simp at hd; subst hd; simp [wfResult, optIs, lookup]
+  rw [if_neg h1] at hd
+  by_cases h2 : req.method = t!"tools/list"
+  · rw [if_pos h2] at hd; rw [h2]
+    simp [handleListTools] at hd; subst hd; exact wf_listTools reg hc
+  rw [if_neg h2] at hd
+  by_cases h3 : req.method = t!"tools/call"
+  · rw [if_pos h3] at hd; rw [h3]
+    simp at hd; exact handleCallTool_wf reg hc req r hd
+  rw [if_neg h3] at hd
+  by_cases h4 : req.method = t!"resources/list"
+  · rw [if_pos h4] at hd; rw [h4]
+    simp [handleListResources] at hd; subst hd; exact wf_listResources reg
+  rw [if_neg h4] at hd
+  by_cases h5 : req.method = t!"resources/read"
+  · rw [if_pos h5] at hd; rw [h5]
+    simp at hd; exact handleReadResource_wf reg hc req r hd
+  rw [if_neg h5] at hd
+  by_cases h6 : req.method = t!"resources/templates/list"
+  · rw [if_pos h6] at hd; rw [h6]
+    simp [handleListTemplates] at hd; subst hd; simp [wfResult, optIs, listOf, lookup]
+  rw [if_neg h6] at hd
+  by_cases h7 : req.method = t!"resources/subscribe"
+  · rw [if_pos h7] at hd; rw [h7]
+    simp at hd
+    unfold handleSubscribe at hd
+    repeat' split at hd
+    all_goals simp at hd
+    subst hd; simp [wfResult, optIs, lookup]
+  rw [if_neg h7] at hd
+  by_cases h8 : req.method = t!"resources/unsubscribe"
+  · rw [if_pos h8] at hd; rw [h8]
+    simp at hd
+    unfold handleUnsubscribe at hd
+    repeat' split at hd
+    all_goals simp at hd
+    subst hd; simp [wfResult, optIs, lookup]
+  rw [if_neg h8] at hd
+  by_cases h9 : req.method = t!"prompts/list"
+  · rw [if_pos h9] at hd; rw [h9]
+    simp [handleListPrompts] at hd; subst hd; exact wf_listPrompts reg
+  rw [if_neg h9] at hd
+  by_cases h10 : req.method = t!"prompts/get"
+  · rw [if_pos h10] at hd; rw [h10]
+    simp at hd; exact handleGetPrompt_wf reg hc req r hd
+  rw [if_neg h10] at hd
+  by_cases h11 : req.method = t!"completion/complete"
+  · rw [if_pos h11] at hd; rw [h11]
+    simp at hd
+    unfold handleCompletion at hd
+    repeat' split at hd
+    all_goals simp at hd
+  rw [if_neg h11] at hd
+  simp at hd
+
+theorem dispatchStdio_result_wf (reg : Registry) (hc : reg.Conforming) (req : Req) (r : Json)
+    (hd : dispatchStdio reg req = .ok (.result r)) : wfResult req.method r = true := by
+  unfold dispatchStdio at hd
+  by_cases h0 : req.method = t!"initialize"
+  · rw [if_pos h0] at hd; rw [h0]
+    obtain ⟨v, rfl⟩ := handleInitialize_result reg req r hd
+    exact wf_initResult reg v
+  rw [if_neg h0] at hd
+  by_cases h1 : req.method = t!"tools/list"
+  · rw [if_pos h1] at hd; rw [h1]
+    simp [handleListTools] at hd; subst hd; exact wf_listTools reg hc
+  rw [if_neg h1] at hd
+  by_cases h2 : req.method = t!"tools/call"
+  · rw [if_pos h2] at hd; rw [h2]
+    simp at hd; exact handleCallTool_wf reg hc req r hd
+  rw [if_neg h2] at hd
+  by_cases h3 : req.method = t!"prompts/list"
+  · rw [if_pos h3] at hd; rw [h3]
+    simp [handleListPrompts] at hd; subst hd; exact wf_listPrompts reg
+  rw [if_neg h3] at hd
+  by_cases h4 : req.method = t!"prompts/get"
+  · rw [if_pos h4] at hd; rw [h4]
+    simp at hd; exact handleGetPrompt_wf reg hc req r hd
+  rw [if_neg h4] at hd
+  by_cases h5 : req.method = t!"resources/list"
+  · rw [if_pos h5] at hd; rw [h5]
+    simp [handleListResources] at hd; subst hd; exact wf_listResources reg
+  rw [if_neg h5] at hd
+  by_cases h6 : req.method = t!"resources/read"
+  · rw [if_pos h6] at hd; rw [h6]
+    simp at hd; exact handleReadResource_wf reg hc req r hd
+  rw [if_neg h6] at hd
+  by_cases h7 : req.method = t!"ping"
+  · rw [if_pos h7] at hd; rw [h7]
+    simp at hd; subst hd; simp [wfResult, optIs, lookup]
+  rw [if_neg h7] at hd
+  simp at hd
+
+/-! ## every emitted message is well-formed -/
+
+theorem decodeRequest_fields (j : Json) (req : Req) (h : decodeRequest j = some req) :
+    (req.id = none) ∨ ∃ o, j = .obj o ∧ anyField o t!"id" = some req.id ∧ strField o t!"method" = some req.method := by
+  unfold decodeRequest at h
+  cases j <;> simp [asMapTarget] at h
+  · left; subst h; rfl
+  · rename_i o
+    right
+    refine ⟨o, rfl, ?_⟩
+    repeat' split at h
+    all_goals simp at h
+    subst h
+    simp_all
+
+theorem decode_agree (j : Json) (b : Base) (req : Req) (hb : decodeBase j = some b) (hr : decodeRequest j = some req) :
+    req.id = b.id ∧ req.method = b.method := by
+  unfold decodeBase at hb
+  unfold decodeRequest at hr
+  cases j <;> simp [asMapTarget] at hb hr
+  · subst hb; subst hr; simp
+  · repeat' split at hb
+    all_goals simp at hb
+    repeat' split at hr
+    all_goals simp at hr
+    subst hb; subst hr
+    simp_all
+
+/-- every message an answer becomes is well-formed with respect to the request object it answers -/
+theorem ansMsg_wf (o : Obj) (req : Req) (a : Ans) (id' : Json) (hid : req.id = some id')
+    (hf : anyField o t!"id" = some req.id) (hm : strField o t!"method" = some req.method)
+    (hex : idsExact (some (.obj o))) (hres : ∀ r, a = .result r → wfResult req.method r = true) :
+    ∀ m ∈ (ansMsg req.id a).toList, wfMsg (some (.obj o)) m = true := by
+  intro m hmem
+  rw [hid] at hf hmem
+  have hidok := id_ok o id' hf hex
+  cases a with
+  | result r =>
+    simp [ansMsg] at hmem; subst hmem
+    rw [wfMsg_okMsg, hidok]
+    have hr := hres r rfl
+    rcases method_ok o req.method hm with h | h <;> rw [h]
+    · simp [hr]
+    · simp [wfResult_nil _ _ hr]
+  | error c msg =>
+    simp [ansMsg] at hmem; subst hmem
+    rw [wfMsg_errMsg, hidok]
+  | unencodable => simp [ansMsg] at hmem
+
+theorem wf_servePost (c : SCfg) (reg : Registry) (st : St) (ref : Ref) (j : Json) (hc : reg.Conforming)
+    (hex : idsExact (some j)) : ∀ m ∈ (servePost c reg st ref j).2.messages, wfMsg (some j) m = true := by
+  unfold servePost
+  cases hb : decodeBase j with
+  | none => simp [Reaction.http, Reaction.messages]
+  | some b =>
+    simp only []
+    cases hres : resolve c.sess st (b.id.isSome && b.method == t!"initialize") ref with
+    | error s => simp [Reaction.http, Reaction.messages]
+    | ok p =>
+      obtain ⟨st1, sess⟩ := p
+      simp only []
+      by_cases h1 : (b.id.isSome && !b.method.isEmpty) = true
+      · simp only [h1, if_true]
+        cases hreq : decodeRequest j with
+        | none => simp [Reaction.http, Reaction.messages]
+        | some req =>
+          simp only []
+          cases hd : dispatch reg req with
+          | panic => simp [Reaction.messages]
+          | ok a =>
+            simp only [Reaction.http, Reaction.messages, List.append_nil]
+            have hag := decode_agree j b req hb hreq
+            have hsome : b.id.isSome = true := by simp_all
+            obtain ⟨id', hid'⟩ := Option.isSome_iff_exists.mp hsome
+            have hid : req.id = some id' := by rw [hag.1, hid']
+            rcases decodeRequest_fields j req hreq with hn | ⟨o, rfl, hf, hm⟩
+            · rw [hn] at hid; simp at hid
+            · exact ansMsg_wf o req a id' hid hf hm hex (fun r hr => dispatch_result_wf reg hc req r (hr ▸ hd))
+      · simp only [h1, Bool.false_eq_true, if_false]
+        by_cases h2 : (!b.method.isEmpty) = true
+        · simp only [h2, if_true]
+          cases decodeNotification j <;> simp [Reaction.http, Reaction.messages]
+        · simp only [h2, Bool.false_eq_true, if_false]
+          by_cases h3 : b.id.isSome = true
+          · simp only [h3, if_true]
+            cases decodeResponse j <;> simp [Reaction.http, Reaction.messages]
+          · simp [h3, Reaction.http, Reaction.messages]
+
+theorem wf_serveStreamable (c : SCfg) (reg : Registry) (st : St) (i : HttpIn) (hc : reg.Conforming)
+    (hex : idsExact i.body.json?) : ∀ m ∈ (serveStreamable c reg st i).2.messages, wfMsg i.body.json? m = true := by
+  unfold serveStreamable
+  by_cases hp : i.pathOk = true
+  · simp only [hp]
+    cases hv : i.verb with
+    | post =>
+      cases hbd : i.body with
+      | parseFail => simp [Reaction.http, Reaction.messages]
+      | json j =>
+        simp only [Bool.not_true, Bool.false_eq_true, if_false, Body.json?]
+        rw [hbd] at hex
+        exact wf_servePost c reg st i.ref j hc hex
+    | get => simp [Reaction.http, Reaction.messages]
+    | delete => simp [Reaction.http, Reaction.messages]
+    | other => simp [Reaction.http, Reaction.messages]
+  · have hp' : i.pathOk = false := by simpa using hp
+    simp only [hp', Bool.not_false, if_true]
+    split <;> simp [Reaction.http, Reaction.messages]
+theorem wf_serveSSE (reg : Registry) (i : SseIn) (hc : reg.Conforming) (hex : idsExact i.body.json?)
+    (henv : readableEnvelope i.body) : ∀ m ∈ (serveSSE reg i).messages, wfMsg i.body.json? m = true := by
+  unfold serveSSE
+  cases hp : i.path with
+  | other => simp [Reaction.http, Reaction.messages]
+  | sse => simp only []; split <;> simp [Reaction.http, Reaction.messages]
+  | message =>
+    simp only []
+    by_cases hv : i.verb = .post
+    · simp only [hv, ne_eq, not_true_eq_false, if_false]
+      cases hr : i.ref with
+      | missing => simp [Reaction.http, Reaction.messages]
+      | unknown => simp [Reaction.http, Reaction.messages]
+      | live =>
+        simp only []
+        cases hbd : i.body with
+        | parseFail => rw [hbd] at henv; exact absurd henv (by simp [readableEnvelope])
+        | json j =>
+          rw [hbd] at henv hex
+          obtain ⟨b, hb, hbm⟩ := henv
+          simp only [serveSSEMessage, hb, Body.json?]
+          by_cases h1 : (b.id.isSome && !b.method.isEmpty) = true
+          · simp only [h1, if_true]
+            cases hreq : decodeRequest j with
+            | none => simp [Reaction.http, Reaction.messages]
+            | some req =>
+              simp only []
+              cases hd : dispatch reg req with
+              | panic => simp [Reaction.messages]
+              | ok a =>
+                simp only [Reaction.messages, Option.toList, List.nil_append]
+                have hag := decode_agree j b req hb hreq
+                have hsome : b.id.isSome = true := by simp_all
+                obtain ⟨id', hid'⟩ := Option.isSome_iff_exists.mp hsome
+                have hid : req.id = some id' := by rw [hag.1, hid']
+                rcases decodeRequest_fields j req hreq with hn | ⟨o, rfl, hf, hm⟩
+                · rw [hn] at hid; simp at hid
+                · exact ansMsg_wf o req a id' hid hf hm hex (fun r hr => dispatch_result_wf reg hc req r (hr ▸ hd))
+          · simp only [h1, Bool.false_eq_true, if_false]
+            by_cases h2 : (!b.method.isEmpty) = true
+            · simp [h2, Reaction.http, Reaction.messages]
+            · simp only [h2, Bool.false_eq_true, if_false]
+              by_cases h3 : b.id.isSome = true
+              · simp [h3, Reaction.http, Reaction.messages]
+              · exfalso
+                rcases hbm with h | h
+                · exact h3 h
+                · apply h2; simp; cases hme : b.method <;> simp_all
+    · simp [hv, Reaction.http, Reaction.messages]
+
+theorem wf_serveStdio (reg : Registry) (b : Body) (hc : reg.Conforming) (hex : idsExact b.json?)
+    (hans : stdioAnswerable b) : ∀ m ∈ (serveStdio reg b).messages, wfMsg b.json? m = true := by
+  unfold serveStdio
+  cases b with
+  | parseFail => simp [Reaction.nothing, Reaction.messages]
+  | json j =>
+    simp only [Body.json?] at hex ⊢
+    cases hcl : classifyStdio j with
+    | none => simp [Reaction.nothing, Reaction.messages]
+    | some ty =>
+      cases ty with
+      | request =>
+        obtain ⟨req, id', hreq, hid⟩ := hans hcl
+        simp only [hreq]
+        cases hd : dispatchStdio reg req with
+        | panic => simp [Reaction.messages]
+        | ok a =>
+          simp only [Reaction.messages, Option.toList, List.nil_append]
+          rcases decodeRequest_fields j req hreq with hn | ⟨o, rfl, hf, hm⟩
+          · rw [hn] at hid; simp at hid
+          · exact ansMsg_wf o req a id' hid hf hm hex (fun r hr => dispatchStdio_result_wf reg hc req r (hr ▸ hd))
+      | response => simp [Reaction.nothing, Reaction.messages]
+      | error => simp [Reaction.nothing, Reaction.messages]
+      | notification => simp [Reaction.nothing, Reaction.messages]
+/-! ## fault classes and their codes -/
+
+theorem errorCode_http (s : Nat) (id : Json) (c : Int) (msg : Text) :
+    (Reaction.http s (some (errMsg (some id) c msg))).errorCode = some c := by
+  simp [Reaction.errorCode, Reaction.outcome, Reaction.messages, Reaction.http, normMsg, errMsg, lookup, jsonrpcField]
+
+theorem errorCode_frames (s : Option Nat) (id : Json) (c : Int) (msg : Text) :
+    (Reaction.resp ⟨s, none, [errMsg (some id) c msg]⟩).errorCode = some c := by
+  simp [Reaction.errorCode, Reaction.outcome, Reaction.messages, normMsg, errMsg, lookup, jsonrpcField]
+
+theorem dispatch_unknown (reg : Registry) (req : Req) (h : req.method ∉ tableMethods) :
+    dispatch reg req = .ok (.error codeMethodNotFound t!"method not found") := by
+  simp [tableMethods] at h
+  simp [dispatch, h]
+
+theorem dispatchStdio_unknown (reg : Registry) (req : Req) (h : req.method ∉ stdioMethods) :
+    dispatchStdio reg req = .ok (.error codeMethodNotFound t!"Method not found") := by
+  simp [stdioMethods] at h
+  simp [dispatchStdio, h]
+
+theorem handleCallTool_bad (reg : Registry) (req : Req) (h : badParams reg t!"tools/call" req.params = true) :
+    (handleCallTool reg req).code? = some codeInvalidParams := by
+  unfold badParams at h
+  cases hp : req.params with
+  | none => simp [handleCallTool, hp, Ans.code?]
+  | some p =>
+    cases hm : asObj? p with
+    | none => simp [handleCallTool, hp, hm, Ans.code?]
+    | some m =>
+      simp [hp, hm] at h
+      cases hn : lookupStr? m t!"name" with
+      | none => simp [handleCallTool, hp, hm, hn, Ans.code?]
+      | some n =>
+        simp [hn] at h
+        by_cases he : n = []
+        · simp [handleCallTool, hp, hm, hn, he, Ans.code?]
+        · simp [he] at h
+          obtain ⟨hf, ha⟩ := h
+          obtain ⟨tool, ht⟩ := Option.isSome_iff_exists.mp hf
+          have : ∃ msg, toolArguments m = .error (.error codeInvalidParams msg) := by
+            unfold argumentsOk at ha
+            unfold toolArguments
+            split at ha <;> simp at ha
+            rename_i v h1 h2 h3
+            cases v <;> simp_all
+          obtain ⟨msg, hta⟩ := this
+          simp [handleCallTool, hp, hm, hn, he, ht, hta, Ans.code?]
+
+theorem handleGetPrompt_bad (reg : Registry) (req : Req) (h : badParams reg t!"prompts/get" req.params = true) :
+    (handleGetPrompt reg req).code? = some codeInvalidParams := by
+  unfold badParams at h
+  cases hm : req.params.bind asObj? with
+  | none => simp [handleGetPrompt, hm, Ans.code?]
+  | some m =>
+    simp [hm] at h
+    simp [handleGetPrompt, hm, h, Ans.code?]
+
+theorem handleReadResource_bad (reg : Registry) (req : Req) (h : badParams reg t!"resources/read" req.params = true) :
+    (handleReadResource reg req).code? = some codeInvalidParams := by
+  unfold badParams at h
+  cases hm : req.params.bind asObj? with
+  | none => simp [handleReadResource, hm, Ans.code?]
+  | some m =>
+    simp [hm] at h
+    simp [handleReadResource, hm, h, Ans.code?]
+
+theorem handleInitialize_bad (reg : Registry) (req : Req) (h : badParams reg t!"initialize" req.params = true) :
+    (handleInitialize reg req).ans?.bind Ans.code? = some codeInvalidParams := by
+  unfold badParams at h
+  cases hp : req.params with
+  | none => simp [handleInitialize, checkInitializeParams, hp, Ans.code?, Outcome.ans?]
+  | some p =>
+    cases hm : asObj? p with
+    | none => simp [handleInitialize, checkInitializeParams, hp, hm, Ans.code?, Outcome.ans?]
+    | some m =>
+      simp [hp, hm] at h
+      simp [handleInitialize, checkInitializeParams, hp, hm, h, Ans.code?, Outcome.ans?]
+
+/-- missing / wrongly shaped REQUIRED parameters are answered with −32602, by the table and by the switch -/
+theorem dispatch_bad_params (reg : Registry) (req : Req) (h : badParams reg req.method req.params = true) :
+    (dispatch reg req).ans?.bind Ans.code? = some codeInvalidParams ∧
+    (dispatchStdio reg req).ans?.bind Ans.code? = some codeInvalidParams := by
+  have hm : req.method = t!"initialize" ∨ req.method = t!"tools/call" ∨ req.method = t!"prompts/get" ∨ req.method = t!"resources/read" := by
+    unfold badParams at h
+    split at h
+    · simp at h; rcases h with ((h | h) | h) | h <;> simp [h]
+    · by_cases h1 : req.method = t!"initialize"; · exact Or.inl h1
+      by_cases h2 : req.method = t!"tools/call"; · exact Or.inr (Or.inl h2)
+      by_cases h3 : req.method = t!"prompts/get"; · exact Or.inr (Or.inr (Or.inl h3))
+      by_cases h4 : req.method = t!"resources/read"; · exact Or.inr (Or.inr (Or.inr h4))
+      simp [h1, h2, h3, h4] at h
+  rcases hm with hm | hm | hm | hm
+  · rw [hm] at h; have e := handleInitialize_bad reg req h
+    exact ⟨by simpa [dispatch, hm] using e, by simpa [dispatchStdio, hm] using e⟩
+  · rw [hm] at h; have e := handleCallTool_bad reg req h
+    exact ⟨by simpa [dispatch, hm, Outcome.ans?] using e, by simpa [dispatchStdio, hm, Outcome.ans?] using e⟩
+  · rw [hm] at h; have e := handleGetPrompt_bad reg req h
+    exact ⟨by simpa [dispatch, hm, Outcome.ans?] using e, by simpa [dispatchStdio, hm, Outcome.ans?] using e⟩
+  · rw [hm] at h; have e := handleReadResource_bad reg req h
+    exact ⟨by simpa [dispatch, hm, Outcome.ans?] using e, by simpa [dispatchStdio, hm, Outcome.ans?] using e⟩
+theorem contains_self (s : Text) : Mcp.Str.contains s s = true := by
+  apply contains_of_prefix
+  have := hasPrefix_append s []
+  simpa using this
+
+theorem contains_suffix (a s : Text) : Mcp.Str.contains (a ++ s) s = true :=
+  contains_append_left a s s (contains_self s)
+
+/-- a handler's Go error becomes a −32603 answer whose message contains the handler's text -/
+theorem runTool_goErr (tool : ToolEntry) (a : Option Obj) (msg : Text) (h : tool.run a = .goErr msg) :
+    (runTool tool a).code? = some codeInternal ∧ ∃ t, (runTool tool a).text? = some t ∧ Mcp.Str.contains t msg = true := by
+  unfold runTool
+  rw [h]
+  refine ⟨rfl, _, rfl, ?_⟩
+  unfold serverErrorMessage
+  exact contains_suffix _ _
+
+theorem runPrompt_goErr (p : PromptEntry) (a : List (Text × Text)) (msg : Text) (h : p.run a = .goErr msg) :
+    (runPrompt p a).code? = some codeInternal ∧ ∃ t, (runPrompt p a).text? = some t ∧ Mcp.Str.contains t msg = true := by
+  simp [runPrompt, h, Ans.code?, Ans.text?, contains_self]
+
+theorem runResource_goErr (r : ResEntry) (a : Option Obj) (msg : Text) (h : r.run a = .goErr msg) :
+    (runResource r a).code? = some codeInternal ∧ ∃ t, (runResource r a).text? = some t ∧ Mcp.Str.contains t msg = true := by
+  simp [runResource, h, Ans.code?, Ans.text?, contains_self]
+
+theorem resolve_ok (c : SCfg) (st : St) (ref : Ref) (m : Text) (hs : sessionOk c st ref m) :
+    ∃ st1 sess, resolve c.sess st (m == t!"initialize") ref = .ok (st1, sess) := by
+  unfold resolve
+  cases hm : c.sess.mode with
+  | stateless => simp
+  | sessionsOff => simp
+  | stateful =>
+    rcases hs hm with ⟨s, rfl, hl⟩ | ⟨rfl, rfl⟩
+    · simp [hl]
+    · simp
+
+/-- What the three servers do with a well-formed envelope (numbers a float64 can hold, non-empty method, accepted
+    session): the typed request reaches the dispatcher and its answer is what is emitted. -/
+theorem serve_normal_form (reg : Registry) (o mm : Obj) (hwf : wfEnvelope (.obj o) = true) (hrep : goDecodeFields o = some mm)
+    (m : Text) (hm : lookup o t!"method" = some (.str m)) (hne : m ≠ [])
+    (c : SCfg) (st : St) (ref : Ref) (acc : Bool) (hs : sessionOk c st ref m) :
+    ∃ id', (∀ a, dispatch reg ⟨some id', m, paramsOf mm⟩ = .ok a →
+        (serveStreamable c reg st (postOf ref acc (.obj o))).2 = .http 200 (ansMsg (some id') a) ∧
+        serveSSE reg (ssePostOf (.obj o)) = .resp ⟨some 202, none, (ansMsg (some id') a).toList⟩) ∧
+      (∀ a, dispatchStdio reg ⟨some id', m, paramsOf mm⟩ = .ok a →
+        serveStdio reg (.json (.obj o)) = .resp ⟨none, none, (ansMsg (some id') a).toList⟩) := by
+  obtain ⟨id, id', m', hid, _, hid', hm', hreq, hbase, hcls⟩ := decode_wfEnvelope o mm hwf hrep
+  have : m' = m := by rw [hm] at hm'; simpa using hm'.symm
+  subst this
+  have hne' : m'.isEmpty = false := by cases m' <;> simp_all
+  obtain ⟨st1, sess, hres⟩ := resolve_ok c st ref m' hs
+  refine ⟨id', ?_, ?_⟩
+  · intro a ha
+    constructor
+    · simp only [postOf, serveStreamable, servePost, hbase, hreq, hne', ha]
+      simp [hres]
+    · simp only [ssePostOf, serveSSE, serveSSEMessage, hbase, hreq, hne', ha]
+      simp
+  · intro a ha
+    simp [serveStdio, hcls, hreq, ha]
+
+/-! ## malformed input is answered -/
+
+theorem resolve_error (c : Cfg) (st : St) (isInit : Bool) (ref : Ref) (s : Nat) (h : resolve c st isInit ref = .error s) :
+    400 ≤ s := by
+  unfold resolve at h
+  cases hm : c.mode <;> cases ref <;> simp_all <;> (repeat' (split at h <;> simp_all)) <;> omega
+
+theorem answered_streamable (c : SCfg) (reg : Registry) (st : St) (ref : Ref) (acc : Bool) (b : Body)
+    (h : Malformed b) : (serveStreamable c reg st ⟨.post, true, ref, acc, b⟩).2.answeredWithError = true := by
+  cases h with
+  | unparsable => simp [serveStreamable, Reaction.http, Reaction.answeredWithError]
+  | undecodable j hj => simp [serveStreamable, servePost, hj, Reaction.http, Reaction.answeredWithError]
+  | empty j bb hj hid hm =>
+    simp only [serveStreamable, servePost, hj, hid, hm]
+    cases hr : resolve c.sess st (none.isSome && ([] : Text) == t!"initialize") ref with
+    | error s =>
+      have := resolve_error _ _ _ _ _ hr
+      simp [Reaction.http, Reaction.answeredWithError, this]
+    | ok p => simp [Reaction.http, Reaction.answeredWithError]
+
+theorem answered_sse (reg : Registry) (verb : Verb) (ref : SseRef) (b : Body) (h : Malformed b) :
+    (serveSSE reg ⟨verb, .message, ref, b⟩).answeredWithError = true := by
+  unfold serveSSE
+  by_cases hv : verb = .post
+  · subst hv
+    cases ref <;> simp [Reaction.http, Reaction.answeredWithError]
+    cases h with
+    | unparsable => simp [serveSSEMessage, Reaction.http, errMsg, isErrorMsg, hasKey, lookup, jsonrpcField]
+    | undecodable j hj => simp [serveSSEMessage, hj, Reaction.http, errMsg, isErrorMsg, hasKey, lookup, jsonrpcField]
+    | empty j bb hj hid hm =>
+      simp [serveSSEMessage, hj, hid, hm, Reaction.http, errMsg, isErrorMsg, hasKey, lookup, jsonrpcField]
+  · simp [hv, Reaction.http, Reaction.answeredWithError]
+
+theorem answered_stdio (reg : Registry) (j : Json) (hc : classifyStdio j = some .request)
+    (hd : decodeRequest j = none) : (serveStdio reg (.json j)).answeredWithError = true := by
+  simp [serveStdio, hc, hd, Reaction.answeredWithError, errMsg, isErrorMsg, hasKey, lookup, jsonrpcField]
+
 /-! ## concrete instances (non-vacuity examples and counterexamples of the property files) -/
 
 def objectSchema : Json := .obj [(t!"type", .str t!"object")]
